@@ -59,6 +59,9 @@ package websocket
 //@   ensures [exact-length] len(*f) == off + len(b) && result == f && heapslice(*f) && cap(*f) <= 1<<46
 //@   ensures [payload] forall k :: 0 <= k && k < len(b) ==> (*f)[off + k] == old(b[k])
 //@   ensures [first-byte] (*f)[0] == old((*f)[0]) && ((*f)[1] & 128 != 0) == masked
+//@   // read back from the header: the payload starts where the length code says, and the declared length is len(b)
+//@   ensures [offset] 2 + ((((*f)[1] & 127) == 127) ? 8 : ((((*f)[1] & 127) == 126) ? 2 : 0)) + ((((*f)[1] & 128) != 0) ? 4 : 0) == off
+//@   ensures [declared] declLen(*f) == len(b) && frameWF(*f)
 //@   // writes stay inside the frame's old backing array (or go to a newly allocated one)
 //@   ensures [frame-only] unchanged_except(old((*f)[0:cap(*f)]))
 //@   // the frame keeps its backing array or moves to a newly allocated one
